@@ -219,7 +219,7 @@ class EulerRotation(InvertibleParametricTransform, LinearTransform):
             raise TypeError("EulerRotation.matrix() 'arg' must be tensor")
         if arg.ndim != 3:
             raise ValueError("EulerRotation.matrix() 'arg' must be 3-dimensional tensor")
-        shape = (arg.shape[0], 3, 3)
+        shape = (arg.shape[0], self.ndim, self.ndim)
         if arg.shape != shape:
             raise ValueError(f"Rotation matrix must have shape {shape!r}")
         angles = U.euler_rotation_angles(arg, order=self.order)
